@@ -616,7 +616,78 @@ fn nt_c11(_c: &Case, _out: &Outcome, h: &Hist) -> bool {
     }
 }
 
+
+// ---------------------------------------------------------------- C19
+/// Base case as for C11 (so that every fault variant exists) with small
+/// mailboxes (blocked senders), leaked wakers, optional wake-on-drop handler
+/// futures and either drop order of the external handles.
+fn gen_c19(rng: &mut Rng, thorough: bool) -> Case {
+    let mut c = gen_c11(rng, thorough);
+    for n in c.nodes.iter_mut() {
+        if rng.pct(60) {
+            n.cap = rng.range(1, 2) as u8;
+        }
+        for ops in n.on.iter_mut() {
+            if rng.pct(35) {
+                let pos = rng.usize(ops.len() + 1);
+                ops.insert(pos, Op::LeakWaker);
+            }
+            if rng.pct(20) {
+                let pos = rng.usize(ops.len() + 1);
+                ops.insert(pos, Op::ChaosWake { how: rng.below(3) as u8 });
+            }
+        }
+    }
+    c.cfg.wake_on_drop = rng.pct(50);
+    c.cfg.drop_handles_first = rng.pct(40);
+    c.profile = "drop:none".into();
+    c
+}
+/// Enumerates the drop point: every fault variant of the base case is cut
+/// after each command index 0..=n and followed by the drop.
+fn variants_c19(c: &Case, thorough: bool) -> Vec<Case> {
+    let mut out = Vec::new();
+    let faults = variants_c11(c, thorough);
+    for (fi, f) in faults.iter().enumerate() {
+        // quick tier: every fault variant, but only every other drop index for half of them
+        let n = f.script.len();
+        for d in 0..=n {
+            if !thorough && fi % 2 == 1 && d % 2 == 1 {
+                continue;
+            }
+            let mut x = f.clone();
+            x.script.truncate(d);
+            x.script.push(Cmd::DropSim);
+            x.profile = format!("drop@{} {}", d, f.profile);
+            out.push(x);
+        }
+    }
+    out
+}
+fn check_c19(case: &Case, out: &Outcome, h: &Hist, _g: &mut Group) -> Vec<Violation> {
+    let mut v = oracle::common(case, out, h);
+    v.extend(flow::drop_rules(case, out, h));
+    v
+}
+fn nt_c19(_c: &Case, out: &Outcome, h: &Hist) -> bool {
+    // the simulation was dropped in a state worth dropping: after a fatal error, with
+    // unfinished handlers / queued messages, or with wake-ups issued from destructors
+    out.drop_wakes > 0 || h.first_fatal().is_some() || h.handlers.iter().any(|x| x.end.is_none())
+}
+
 pub static PROPS: &[PropSpec] = &[
+    PropSpec {
+        id: "C19",
+        gen: gen_c19,
+        check: check_c19,
+        nontrivial: nt_c19,
+        variants: variants_c19,
+        schedules_quick: 2,
+        schedules_thorough: 5,
+        cases_quick: 400,
+        cases_thorough: 8_000,
+        rule: "a case is a base bench (hierarchy, small mailboxes, leaked wakers, optional wake-on-drop handler futures, either drop order of simulation and external handles) x every fault variant of C11 (none, panic, dropped/orphan mailbox, query loop, saturating loop, time-out, clock lag) x every drop index 0..=n of the script; distinct = distinct (decision sequence, history); non-trivial = dropped after a fatal error, with an unfinished handler, or with wake-ups issued from destructors during the drop",
+    },
     PropSpec {
         id: "C11",
         gen: gen_c11,
